@@ -103,8 +103,12 @@ def extract(units, extra_roots=(), extra_args=()):
         os.utime(outdir, None)
         ds = sorted((d for d in os.listdir(FACTS_DIR) if d != th),
                     key=lambda d: os.path.getmtime(os.path.join(FACTS_DIR, d)), reverse=True)
+        import time
+        now = time.time()
         for d in ds[3:]:
-            subprocess.run(['rm', '-rf', os.path.join(FACTS_DIR, d)])
+            # never under the feet of a concurrently running check of another tree state
+            if now - os.path.getmtime(os.path.join(FACTS_DIR, d)) > 900:
+                subprocess.run(['rm', '-rf', os.path.join(FACTS_DIR, d)])
     except OSError:
         pass
     jobs = []
